@@ -1385,6 +1385,48 @@ func ruleScopeSearch(p *Program, r *Reporter) {
 		}
 	}
 	r.Check(good, "scopes are searched innermost first", p.Pos(search.Pos()), "counter starts at len(scopes) and decreases; index counter-1", why+": a variable of an outer scope would shadow the same name in an inner one")
+	// every other loop over the scope stack (the one that updates an existing
+	// local) must walk the same way
+	for _, fn := range p.LibFns {
+		if !recvNamed(fn, "environment", "Environment") || fn == search {
+			continue
+		}
+		for _, b := range fn.Blocks {
+			for _, ins := range b.Instrs {
+				ia, ok := ins.(*ssa.IndexAddr)
+				if !ok {
+					continue
+				}
+				u, ok := ia.X.(*ssa.UnOp)
+				if !ok || fieldKey(u.X) != er.scopeField {
+					continue
+				}
+				// loop-carried index?
+				var ph *ssa.Phi
+				switch x := ia.Index.(type) {
+				case *ssa.Phi:
+					ph = x
+				case *ssa.BinOp:
+					ph, _ = x.X.(*ssa.Phi)
+				}
+				if ph == nil {
+					continue
+				}
+				down := false
+				for _, e := range ph.Edges {
+					if b2, ok := e.(*ssa.BinOp); ok && b2.Op == token.SUB && b2.X == ssa.Value(ph) {
+						down = true
+					}
+				}
+				key := p.FnName(fn) + "/walks the scope stack innermost first"
+				if down {
+					r.OkNT(key, p.Pos(ia.Pos()), "descending index")
+				} else {
+					r.Fail(key, p.Pos(ia.Pos()), "this loop walks the scope stack from the outermost scope (ascending index / range): when a name is bound in two open scopes the outer one is found and updated, so an assignment in a callee or inner loop overwrites the caller's variable and leaves its own unchanged")
+				}
+			}
+		}
+	}
 	// Get consults the scopes before the globals
 	var searchCall ssa.CallInstruction
 	for _, c := range callsTo(envGet, search) {
